@@ -31,6 +31,7 @@ var laneVariants = []string{
 }
 
 func (r *runner) runLanes(schemeIdx int) {
+	defer timed("lanes")()
 	w := r.w
 	P := w.P[r.sc]
 	r.o.Case(r.sc + "/block/lanes")
@@ -125,7 +126,7 @@ func (r *runner) runLanes(schemeIdx int) {
 				bz := block[p]
 				w.inTxn(func() {
 					if _, e := w.sm.CheckTx(bz, "", nil); e != nil {
-						panic("c05: lane filler refused by CheckTx: " + errStr(e))
+						r.fail("C05:valid-tx-rejected:check", fmt.Sprintf("%s: a valid send was refused by CheckTx with %s", r.o.CurCase(), errStr(e)), map[string]any{"tx": drv.Hex(bz)})
 					}
 				})
 			}
